@@ -332,3 +332,78 @@ def c04(tier):
 
 
 PROPS["C04"] = c04
+
+
+def _corrupt_c01(events):
+    ev = json.loads(json.dumps(events))
+    for e in ev:
+        if e.get("ev") == "op_done" and e.get("op") == "read" and e.get("res") == "done" and e.get("len", 0) > 0:
+            if "bytes" in e:
+                e["bytes"][0] = (e["bytes"][0] + 1) % 256
+            else:
+                e["head"][0] = (e["head"][0] + 1) % 256
+            return ev
+    return None
+
+
+def c01(tier):
+    import scen
+    return e2e_check(
+        "C01", tier, scen.c01(tier, vlib.seed()), "C01Trace.tla", _corrupt_c01,
+        ["payload lengths 0..3 flow-control windows, write chunkings, read buffer sizes, 4 stream roles, "
+         "2..40 concurrent streams between two wtransport endpoints; raw peer writing preambles (shortest "
+         "and non-shortest varints) cut at every position with 25 ms gaps; streams the endpoint opens recorded byte for byte by the raw peer",
+         "session id is 0 on a fresh connection (larger ids covered at the sans-IO layer)"],
+        mc_cfgs=[("StreamPipeMC.tla", "StreamPipe_%s.cfg" % tier)], runs=2 if tier == "thorough" else 1)
+
+
+PROPS["C01"] = c01
+
+
+def _corrupt_c02(events):
+    ev = json.loads(json.dumps(events))
+    for e in ev:
+        if e.get("ev") == "server_saw":
+            e["path"] = e["path"] + [47]
+            return ev
+    return None
+
+
+def c02(tier):
+    import scen
+    return e2e_check(
+        "C02", tier, scen.c02(tier, vlib.seed()), "C02Trace.tla", _corrupt_c02,
+        ["URLs from the identity sub-grammar of WHATWG normalisation (IPv4, IPv6 literal, domains through a scripted "
+         "DNS resolver; explicit, default-443 and absent ports; paths and queries), header sets by QPACK class "
+         "(static name+value, name-only, literal; Huffman-shrinking or not; lengths across prefix boundaries), "
+         "5 server decisions, extra response fields; two real wtransport endpoints on loopback"],
+        mc_cfgs=[("WireMC.tla", "WireMC_quick.cfg")])
+
+
+PROPS["C02"] = c02
+
+
+def _corrupt_c03(events):
+    ev = json.loads(json.dumps(events))
+    for e in ev:
+        if e.get("ev") == "op_done" and e.get("op") == "recv_dgram" and e.get("res") == "ok" and e.get("len", 0) > 0:
+            e["bytes"][0] = (e["bytes"][0] + 1) % 256
+            return ev
+        if e.get("ev") == "op_done" and e.get("op") == "max_dgram" and e.get("res") == "ok" and e.get("max", -1) >= 0:
+            e["max"] += 1
+            return ev
+    return None
+
+
+def c03(tier):
+    import scen
+    return e2e_check(
+        "C03", tier, scen.c03(tier, vlib.seed()), "C03Trace.tla", _corrupt_c03,
+        ["peer datagram frame limits 0..65535 (set on a raw QUIC peer), payload lengths 0,1,2,50 and max-1..max+8 "
+         "relative to the maximum measured at run time, live/foreign/non-shortest quarter ids from the peer, "
+         "both directions interleaved between two wtransport endpoints",
+         "loss is allowed: a receive that times out is not judged; the maximum is read immediately before and after each send"],
+        mc_cfgs=[("DatagramMC.tla", "DatagramMC.cfg")])
+
+
+PROPS["C03"] = c03
